@@ -128,6 +128,9 @@ func isLoopInv(cc *ssa.CallCommon) bool {
 }
 
 // evalBoolClosure evaluates a func() bool closure to one term in state st.
+// The facts produced while evaluating it (unfoldings of recursive spec
+// functions, type invariants of fresh values) are valid assumptions and are
+// added to the state.
 func (x *Exec) evalBoolClosure(st *State, clo *Term) (*Term, string) {
 	mark := len(x.mergedFacts)
 	v, def := x.applyMerged(st, clo, nil)
@@ -135,7 +138,8 @@ func (x *Exec) evalBoolClosure(st *State, clo *Term) (*Term, string) {
 		return nil, "invariant outside the supported subset"
 	}
 	facts := x.takeFacts(mark)
-	return x.c.And(x.c.Implies(facts, def), x.c.Implies(facts, v)), ""
+	x.assumeFact(st, facts)
+	return x.c.And(def, v), ""
 }
 
 func (x *Exec) pcOf(st *State) []*Term {
@@ -297,6 +301,20 @@ func (x *Exec) havocLoop(fr *Frame, st *State, li *loopInfo, acc *discoverAcc) {
 		name := phi.Comment
 		if name == "" {
 			name = phi.Name()
+		}
+		if old, ok := fr.env[phi]; ok && old.Op == "cell" {
+			// per-iteration loop variable captured by a closure: the phi is a pointer to
+			// the current iteration's copy; havoc = a new private cell with arbitrary content
+			if ov, ok := st.cells[old.Idx]; ok {
+				nv := c.Fresh("loop_"+name, ov.Sort)
+				t := x.cellType[old.Idx]
+				cell := x.newCell(st, nv, t)
+				if t != nil {
+					x.assumeFact(st, x.resultInv(t, nv))
+				}
+				fr.env[phi] = cell
+				continue
+			}
 		}
 		v := c.Fresh("loop_"+name, c.SortOf(phi.Type()))
 		fr.env[phi] = v
